@@ -197,6 +197,7 @@ func TreeCapable(t types.Type) bool {
 
 // Fresh: v is storage created in this function (or nil / constant).
 func Fresh(v ssa.Value, seen map[ssa.Value]bool) bool {
+	v = outerOf(v) // a struct embedded in fresh storage is part of that storage
 	if seen[v] {
 		return true
 	}
